@@ -63,6 +63,10 @@ CLAIMS = {
   "Deductive, rely/guarantee over a ghost file system: the real body of CodedKern.rename_and_write is verified for ANY interference at its file-system calls (other runs may create files and write the files they created; os.open(O_CREAT|O_EXCL) atomic): with 'multiple' the kernel is written to a file that did not exist at entry and that this call created, no other file is created, none removed; with 'single' the call returns normally only if the file it created or read back holds exactly its own code, else GenerationError; an unmodified/inlined kernel touches nothing. CodedKern._new_name inserts the tag before the suffix (string VCs). This replaces interleaving enumeration: the rely quantifies over all interleavings of any number of runs. Known finding (open, replayed by monkey-patching os.write): a 'single' run reading a file another run has created but not yet written fails although the kernels are identical.",
   "Assumed: POSIX atomicity of O_EXCL; _rename_psyir sets the module name via _new_name; writer/limiter are functions of the tree. NOT proved: termination of the retry loop under continual interference; file-name/module-name agreement is only checked by a bounded run-time contract on real runs (labelled bounded). No pause-point hook in /repo was needed.",
   TECH + "; rely/guarantee with a ghost file system havocked (monotonically) at each file-system call"),
+ "C15": ("proof",
+  "Deductive: Node._refine_copy and Node.copy (the copy is fresh and detached, owns a new children list whose items are the copies of the original's children attached to it, the original, its child list and its children's parent links are untouched, tree updates are re-enabled) and ScopingNode._refine_copy (the copy owns the deep-copied table; loop invariant over the walk: every Reference / Loop variable that pointed at a symbol of the original's table points at the copy's symbol of the same lower-cased name, all others unchanged; the original's table untouched) verified on their real bodies. A bounded run-time contract on real copies (shared nodes, equality, symbol ownership, cross-tree renames) stands in for the unverified parts. Known finding (open): symbols reachable from datatypes/shapes/initial values are shared with the original.",
+  "Assumed: child.copy() (induction hypothesis: fresh, injective), ChildrenList.extend via C14, copy.copy, SymbolTable.deep_copy (fresh symbols under the same keys), walk as a list function. NOT under contract: SymbolTable.deep_copy / Symbol.copy, _refine_copy overrides of other node classes, Node.__eq__.",
+  TECH + "; loop invariant over the node walk; bounded run-time contract for the closure clause"),
 }
 
 NA = {
